@@ -118,12 +118,12 @@ def run_G(ctx, quick, trees):
     # (cfg, kind, simulate, depth, number of behaviours to replay - a seeded stride sample of what TLC emitted)
     plan = [("LockstepGen_quick.cfg", "exhaustive2", None, None, 1500)] if quick else \
            [("LockstepGen_thorough.cfg", "exhaustive2", None, None, 60000)]
-    plan.append(("LockstepSim.cfg", "simulated", "num=%d" % (2 if quick else 100), 7, 1000 if quick else 60000))
+    plan.append(("LockstepSim.cfg", "simulated", "num=%d" % (8 if quick else 100), 7, 1000 if quick else 60000))
     for cfg, kind, sim, depth, target in plan:
         wd = tlc.workdir("c02g_" + kind)
         spool = os.path.join(wd, "beh.spool")
         res = tlc.run("Lockstep", cfg, simulate=sim, depth=depth, seed=ctx.seed if sim else None, spool=spool,
-                      tag="c02g" + kind, timeout=6000)
+                      tag="c02g" + kind, timeout=6000, workers=2 if quick else None)
         ctx.add_tlc(res, "G:" + cfg)
         nbeh = 0
         with open(spool, "rb") as f:
@@ -222,9 +222,12 @@ def run_T(ctx, quick, trees, only=None):
     if os.environ.get("VERIF_C02_ISAS"):       # development aid for mutation experiments; never set by the registered commands
         names = [n for n in names if n in os.environ["VERIF_C02_ISAS"].split(",")]
     if quick:
-        per = dict((n, 24 if n in c02isa.FIRST else 8) for n in names)
+        # the quick tier covers the first group of ISA modules; every module is covered by the thorough tier
+        if not os.environ.get("VERIF_C02_ISAS"):
+            names = [n for n in names if n in c02isa.QUICK]
+        per = dict((n, 24) for n in names)
     else:
-        per = dict((n, 600 if n in c02isa.FIRST else 200) for n in names)
+        per = dict((n, 300 if n in c02isa.FIRST else 60) for n in names)
     ctx.note("T_isas", names)
     ctx.note("T_isas_without_semantics_table", skipped)
     wants = None
@@ -254,7 +257,7 @@ def run_T(ctx, quick, trees, only=None):
             totals[k] = totals.get(k, 0) + v[k]
         reached.setdefault(t["isa"], set()).update(t["seq"])
         if v["dropped"]:
-            ctx.fail("C02:dev:RshiftDropsStores", DROP_WHAT, {"trace": brief(t)})
+            ctx.fail("C02:dev:RshiftDropsStores", DROP_WHAT, {"trace": t})
         if v["ref"] != "ok":
             d = json.loads(v["ref"])
             ctx.drift("RefEval: Expr!Eval of the map tree of %s differs from route A (%s, %s)"
@@ -322,7 +325,7 @@ def run_T(ctx, quick, trees, only=None):
     for i, t in bad.items():
         if expl[i]:
             for s in expl[i]:
-                ctx.fail("C02:dev:" + s, fix_what(s), {"trace": brief(t), "explained_by": expl[i]})
+                ctx.fail("C02:dev:" + s, fix_what(s), {"trace": t, "explained_by": expl[i]})
             continue
         t2, v2 = cache.get((allfix, i), (None, None))
         if t2 is not None and v2 is not None and failing(v2):
